@@ -25,10 +25,12 @@
 _Static_assert(VP_DC_NCOORD == REF_DC_NCOORD, "spec must pass -DVP_DC_NCOORD");
 
 static const int vals[NVAL][REF_NG] = { VALS };
-static REF_TP_T tps[NVAL];
-static TASK_T src_task[NVAL];
-static parsec_data_collection_t dcs[NVAL];
-static void *deps_arr[NVAL][8];
+/* one set of static objects, reset by struct assignment for every valuation (never an array of
+ * big structs: type-punned accesses into such an array are very expensive for CBMC) */
+static REF_TP_T the_tp, tp_zero;
+static TASK_T the_src, src_zero;
+static parsec_data_collection_t the_dc;
+static void *deps_arr[8];
 static const parsec_task_class_t *tcs[2 * REF_NCLS];
 static parsec_context_t the_ctx;
 static parsec_vp_t the_vp;
@@ -58,7 +60,7 @@ static parsec_ontask_iterate_t rec(struct parsec_execution_stream_s *es, const p
     VASSERTM(ref_edge(cur_g, CID, cur_sp, sf, dc, dp, df), "every activation emitted by iterate_successors is a reference out-edge");
     VASSERTM(rank_dst == 0, "destination rank computed from the destination's affinity (all local here)");
     /* C02: repository and key of the successor */
-    VASSERTM(skey == ref_tc[dc]->make_key((const parsec_taskpool_t *)cur_tp, newc->locals),
+    VASSERTM(skey == ref_make_key(cur_tp, dc, newc->locals),
              "successor key handed to ontask = make_key of the destination instance");
     VASSERTM(srepo == cur_tp->repositories[ref_tc[dc]->task_class_id], "successor repository = repository of the destination class");
     int eq = (sf == c_sf && dc == c_dc && df == c_df);
@@ -70,11 +72,12 @@ static parsec_ontask_iterate_t rec(struct parsec_execution_stream_s *es, const p
 static void one(int v)
 {
     const int *g = vals[v];
-    REF_TP_T *tp = &tps[v];
-    vp_dc_init(&dcs[v]);
-    ref_set_globals(tp, g, &dcs[v]);
+    REF_TP_T *tp = &the_tp;
+    the_tp = tp_zero; the_src = src_zero; vp_repo_calls = 0;
+    vp_dc_init(&the_dc);
+    ref_set_globals(tp, g, &the_dc);
     tp->super.super.tdm.module = &vp_tdm.module;
-    tp->super.super.dependencies_array = deps_arr[v];
+    tp->super.super.dependencies_array = deps_arr;
     tp->super.super.task_classes_array = tcs;
     tp->super.super.context = &the_ctx;
     tp->sync_point = REF_NCLS;
@@ -89,7 +92,7 @@ static void one(int v)
     cur_g = g; cur_tp = tp; n_act = 0; n_match = 0;
     for (int i = 0; i < 3; i++) cur_sp[i] = sp[i];
 
-    TASK_T *t = &src_task[v];
+    TASK_T *t = &the_src;
     t->taskpool = (parsec_taskpool_t *)tp;
     t->task_class = ref_tc[CID];
     FILL(&t->locals, g, sp);
